@@ -522,6 +522,101 @@ def g_zlimb(rng, n, fmts=('f64',)):
     return out
 
 
+def g_topcarry(rng, n, fmts=('f64',), step=135):
+    """slow-path inputs for which a partial product of the long multiplication by 5^step carries out
+    of the top limb of the running sum (large_add_from with start > 0 and a final carry): the
+    multi-limb multiplicand X has top limb t = floor(2^(64 k) / 5^step) (k = limbs of 5^step; t = 93
+    for 5^135) and the limbs below it, read as a fraction, at least frac(2^(64 k) / 5^step).
+    (a) positive scale: digits D with that shape, decimal exponent >= step, D * 10^E straddling a
+    rounding boundary; (b) negative scale: boundaries (2m+1) * 2^(e2-1) written exactly, where
+    (2m+1) * 5^(step*j) has that shape and the scale needs a further multiplication by 5^step."""
+    out = []
+    P = 5 ** step
+    k = (P.bit_length() + 63) // 64
+    lo_num, t = 1 << (64 * k), (1 << (64 * k)) // P          # X/2^(64 nl) in [2^(64k)/P, t+1)
+    F = FMT['f64']
+    p, emax = F['p'], F['emax']
+    tries = 0
+    while len(out) < n and tries < 40 * n:
+        tries += 1
+        if 'f64' not in fmts:
+            break
+        if rng.below(2) == 0:
+            # (a) D = X, X in [lo, hi) * 2^(64 nl)
+            nl = rng.range(1, 5)
+            E = rng.range(step, 2 * step + 20)
+            lo = -(-(lo_num << (64 * nl)) // P)
+            hi = (t + 1) << (64 * nl)
+            X = rng.range(lo, hi - 1)
+            target = X * 10 ** E
+            bl = target.bit_length()
+            if bl > emax - 1:
+                continue
+            ulp = 1 << (bl - p)
+            mid = (target // ulp) * ulp + ulp // 2
+            D0 = mid // 10 ** E
+            for D in (D0, D0 + 1):
+                if not (lo <= D < hi):
+                    continue
+                i, f, e = split_decimal(str(D), E, rng, rng.choice([0, 0, 2, 3]))
+                if -2 ** 31 <= e < 2 ** 31:
+                    out.append(PF('f64', i, f, e, 'G-TOPCARRY/pos'))
+        else:
+            # (b) s = 2m+1 odd with p+1 bits, s * 5^(step*j) in [lo, hi) * 2^(64 nl) for some nl
+            j = rng.range(1, 6)
+            Q = 5 ** (step * j)
+            # choose nl so that [lo, hi)*2^(64 nl) / Q meets [2^p, 2^(p+1))
+            found = None
+            for nl in range(1, 80):
+                a = -(-((lo_num << (64 * nl))) // (P * Q))
+                b_ = ((t + 1) << (64 * nl)) // Q
+                a2, b2 = max(a, 1 << p), min(b_, (1 << (p + 1)) - 1)
+                if a2 <= b2:
+                    found = (a2, b2)
+                    break
+                if a > (1 << (p + 1)):
+                    break
+            if not found:
+                # subnormal significands (fewer bits): take any nl that leaves at least one odd s >= 3
+                for nl in range(1, 80):
+                    a = -(-((lo_num << (64 * nl))) // (P * Q))
+                    b_ = ((t + 1) << (64 * nl)) // Q
+                    if 3 <= a <= b_ < (1 << p):
+                        found = (a, b_)
+                        break
+                if not found:
+                    continue
+                s_ = rng.range(found[0], found[1]) | 1
+                if not (found[0] <= s_ <= found[1]):
+                    continue
+                e2 = -(emax - 2) - (p - 1)          # subnormal spacing 2^(emin-p+1): b = m * 2^e2
+            else:
+                s_ = rng.range(found[0], found[1]) | 1
+                if not (found[0] <= s_ <= found[1]):
+                    continue
+                emin2 = -(emax - 2) - (p - 1)
+                hi_e2 = 1 - step * (j + 1)
+                if hi_e2 < emin2:
+                    continue
+                e2 = rng.range(emin2, hi_e2)
+            if -(e2 - 1) < step * (j + 1):
+                continue
+            d, e10 = exact_decimal(s_, e2 - 1)
+            if len(d) > 767:
+                continue
+            v = rng.below(4)
+            if v == 0:
+                _emit_decimal('f64', d, e10, rng, 'G-TOPCARRY/neg-tie', out)
+            elif v == 1:
+                _emit_decimal('f64', d + '1', e10 - 1, rng, 'G-TOPCARRY/neg-tie+eps', out)
+            elif v == 2:
+                dm = str(int(d) - 1).rjust(len(d), '0')
+                _emit_decimal('f64', (dm + '9').lstrip('0'), e10 - 1, rng, 'G-TOPCARRY/neg-tie-eps', out)
+            else:
+                _emit_decimal('f64', d, e10, rng, 'G-TOPCARRY/neg-tie', out)
+    return out
+
+
 def g_limbmid(rng, fmts=('f64', 'f32'), groups=False):
     """integer rounding boundaries whose bit length is at (or one off) a multiple of the limb size:
     M = (2*sig+1) * 2^(L-p-1) with L in {64k-1, 64k, 64k+1, 32(2k+1)}, sig even / odd / all-ones /
